@@ -47,7 +47,8 @@ var c14texts = func() []string {
 			o = append(o, t)
 		}
 	}
-	return append(o, "", "x")
+	// numerals longer than any float's shortest decimal form: leading zeros, long fractions
+	return append(o, "", "x", strings.Repeat("0", 350)+"7", "1."+strings.Repeat("0", 340), "-"+strings.Repeat("0", 330)+".5", "0."+strings.Repeat("0", 400)+"1", strings.Repeat("9", 400), "1"+strings.Repeat("0", 305)+".25")
 }()
 
 var c14gen = xt.GenCfg{Names: xt.DefNames, Prefixes: xt.DefPrefixes, Texts: c14texts, MaxKids: 4, MaxAttrs: 3, WideProb: 80}
